@@ -430,3 +430,25 @@ func Returns(fn *ssa.Function) []*ssa.Return {
 	}
 	return out
 }
+
+// NormalExit returns the successor of the header that leaves the loop (the
+// exit taken when the loop condition fails / the range is exhausted).
+func (l *Loop) NormalExit() *ssa.BasicBlock {
+	for _, s := range l.Header.Succs {
+		if !l.Blocks[s] {
+			return s
+		}
+	}
+	return nil
+}
+
+// StopSet is the header plus the normal exit: exploring one iteration of
+// the loop body stops there, while break and return paths are followed to
+// the end of the function.
+func (l *Loop) StopSet() map[*ssa.BasicBlock]bool {
+	m := map[*ssa.BasicBlock]bool{l.Header: true}
+	if x := l.NormalExit(); x != nil {
+		m[x] = true
+	}
+	return m
+}
